@@ -97,7 +97,7 @@ var clr14Eps = map[string][]string{
 	"attrs":   {"LogAttrs", "Logit", "Log"},
 	"printf":  {"Infof", "Warnf", "Errorf"},
 	"adapter": {"logslog.Info", "logslog.Warn", "logslog.Error", "logslog.InfoContext", "logslog.WarnContext", "logslog.ErrorContext", "logslog.Log", "logslog.LogAttrs"},
-	"bridge":  {"stdlog.Print", "stdlog.Printf", "stdlog.Println", "stdlog.Output"},
+	"bridge":  {"stdlog.Print", "stdlog.Printf", "stdlog.Println", "stdlog.Output", "stdlog.Panic", "stdlog.Panicf", "stdlog.Panicln"},
 	"pkgverb": {"slog.Info", "slog.Warn", "slog.Error", "slog.Print", "slog.Println", "slog.OK", "slog.Success", "slog.Fail"},
 	"pkgctx":  {"slog.InfoContext", "slog.WarnContext", "slog.ErrorContext", "slog.PrintContext", "slog.PrintlnContext", "slog.OKContext", "slog.SuccessContext", "slog.FailContext"},
 }
